@@ -228,6 +228,27 @@ fn load_sources(thorough: bool) -> Vec<Source> {
         let d = tables::minimal_font(8, &[], &[(otmodel::tag(b"cmap"), tables::cmap_table(&[(3, 1, sub)]))]);
         v.push(Source { name: "synthetic/cmap4-characters-around-U+8000".into(), data: d, num_glyphs: 8, small: true, light: false });
     }
+    // (b3) format 12 whose only supplementary character is U+10000 itself (the first code point that does not fit format 4)
+    {
+        use otmodel::tables;
+        let sub = tables::cmap12_subtable(&[(0x41, 1), (0x42, 2), (0xFFFF, 4), (0x10000, 3)]);
+        let d = tables::minimal_font(6, &[], &[(otmodel::tag(b"cmap"), tables::cmap_table(&[(3, 10, sub)]))]);
+        v.push(Source { name: "synthetic/cmap12-only-astral-character-is-U+10000".into(), data: d, num_glyphs: 6, small: true, light: false });
+    }
+    // (b4) a source cmap with one malformed entry in front of valid ones (format 4 segment whose idRangeOffset points far
+    // outside the subtable): a subset must either be refused or map every other retained character correctly
+    {
+        use otmodel::cmapenc::{self, Seg4, Term4};
+        use otmodel::tables;
+        let segs = [Seg4::Array { start: 0x41, end: 0x42, delta: 0, entries: vec![1, 2] }, Seg4::Delta { start: 0x61, end: 0x63, delta: (3i32 - 0x61) as i16 }];
+        let (mut sub, _) = cmapenc::fmt4(&segs, Term4::Standard);
+        let n = u16::from_be_bytes([sub[6], sub[7]]) as usize / 2;
+        let ro = 16 + 6 * n;
+        sub[ro] = 0x7F;
+        sub[ro + 1] = 0xF0;
+        let d = tables::minimal_font(7, &[], &[(otmodel::tag(b"cmap"), tables::cmap_table(&[(3, 1, sub)]))]);
+        v.push(Source { name: "synthetic/cmap4-first-segment-points-outside-the-subtable".into(), data: d, num_glyphs: 7, small: true, light: false });
+    }
     // CFF / CFF2 sources from the C18 generator: every path operator incl. the four flex forms, stems and masks, width
     // prefix, every number encoding, local and global subroutines at the bias edges, CID-keyed and FDSelect fonts
     for (name, d) in crate::c18::corpus_for_c07() {
